@@ -47,6 +47,23 @@ mod iso {
         pub fn get(&self) -> u64 {
             unsafe { std::ptr::read_volatile(self.ptr) }
         }
+        /// name of the sub-decoder call in flight (for attributing a death)
+        #[inline]
+        pub fn set_sub(&self, name: &str) {
+            let n = name.len().min(62);
+            unsafe {
+                let p = (self.ptr as *mut u8).add(64);
+                std::ptr::copy_nonoverlapping(name.as_ptr(), p.add(1), n);
+                std::ptr::write_volatile(p, n as u8);
+            }
+        }
+        pub fn get_sub(&self) -> String {
+            unsafe {
+                let p = (self.ptr as *mut u8).add(64);
+                let n = (std::ptr::read_volatile(p) as usize).min(62);
+                String::from_utf8_lossy(std::slice::from_raw_parts(p.add(1), n)).to_string()
+            }
+        }
         /// index of the block the child is running
         pub fn set_block(&self, v: u64) {
             unsafe { std::ptr::write_volatile(self.ptr.add(1), v) }
@@ -84,6 +101,7 @@ mod iso {
         pub how: String,
         pub block: u64,
         pub at: u64,
+        pub sub: String,
     }
     pub struct Emitter {
         file: std::fs::File,
@@ -105,6 +123,7 @@ mod iso {
         let _ = std::fs::remove_file(&outp);
         shared.set(u64::MAX);
         shared.set_block(u64::MAX);
+        shared.set_sub("");
         let pid = unsafe { libc::fork() };
         if pid < 0 {
             vcore::machinery("fork failed");
@@ -166,9 +185,9 @@ mod iso {
         } else if libc::WIFSIGNALED(status) {
             let sig = libc::WTERMSIG(status);
             let how = if sig == libc::SIGALRM { "hang-signal14".to_string() } else { format!("signal{sig}") };
-            (outs, Some(Died { how, block: shared.get_block(), at: shared.get() }))
+            (outs, Some(Died { how, block: shared.get_block(), at: shared.get(), sub: shared.get_sub() }))
         } else {
-            (outs, Some(Died { how: format!("exit{}", libc::WEXITSTATUS(status)), block: shared.get_block(), at: shared.get() }))
+            (outs, Some(Died { how: format!("exit{}", libc::WEXITSTATUS(status)), block: shared.get_block(), at: shared.get(), sub: shared.get_sub() }))
         }
     }
 }
@@ -184,6 +203,7 @@ pub struct Rec<'a> {
     case: &'a dyn Fn() -> Value,
     seen: &'a mut BTreeSet<(&'static str, u8)>,
     pub scratch: &'a Path,
+    shared: &'a Shared,
 }
 
 /// message class of a panic string "msg @ file:line" → (file, class)
@@ -258,6 +278,7 @@ impl<'a> Rec<'a> {
     /// fallible call
     #[inline]
     pub fn call<T, E>(&mut self, sub: &'static str, f: impl FnOnce() -> Result<T, E>) -> Option<T> {
+        self.shared.set_sub(sub);
         match vcore::catch(f) {
             Ok(Ok(v)) => {
                 self.out.ok += 1;
@@ -278,6 +299,7 @@ impl<'a> Rec<'a> {
     /// infallible call (returns a plain value)
     #[inline]
     pub fn inf<T>(&mut self, sub: &'static str, f: impl FnOnce() -> T) -> Option<T> {
+        self.shared.set_sub(sub);
         match vcore::catch(f) {
             Ok(v) => {
                 self.out.ok += 1;
@@ -299,14 +321,15 @@ impl<'a> Rec<'a> {
 // blocks
 // ======================================================================
 pub struct Env {
+    pub shared: std::rc::Rc<Shared>,
     pub small: GuardBuf,
     pub page: GuardBuf,
     pub scratch: PathBuf,
     pub buf: Vec<u8>,
 }
 impl Env {
-    fn new(scratch: &Path) -> Env {
-        Env { small: GuardBuf::new(1 << 17), page: GuardBuf::new(PAGE), scratch: scratch.to_path_buf(), buf: Vec::with_capacity(1 << 17) }
+    fn new(scratch: &Path, shared: std::rc::Rc<Shared>) -> Env {
+        Env { shared, small: GuardBuf::new(1 << 17), page: GuardBuf::new(PAGE), scratch: scratch.to_path_buf(), buf: Vec::with_capacity(1 << 17) }
     }
 }
 
@@ -316,6 +339,8 @@ pub struct BlockInfo {
     pub kind: String,
     pub n: u64,
     pub hang_s: u32,
+    /// re-arm the watchdog alarm every this many cases (1 for cases that do file I/O)
+    pub alarm_every: u64,
 }
 pub trait Block {
     fn info(&self) -> &BlockInfo;
@@ -356,7 +381,7 @@ fn child_run_block(b: &dyn Block, mode: &Mode, env: &mut Env, shared: &Shared, o
     let k = std::cell::Cell::new(0u64);
     let run_one = |i: u64, env: &mut Env, out: &mut Out, seen: &mut BTreeSet<(&'static str, u8)>| {
         shared.set(i);
-        if k.get() % 256 == 0 || info.hang_s >= HANG_B_S {
+        if k.get() % info.alarm_every == 0 {
             unsafe { libc::alarm(limit) };
         }
         k.set(k.get() + 1);
@@ -453,7 +478,10 @@ fn run_group(blocks: &[Box<dyn Block>], sels: &[Sel], from: usize, mut skips: BT
                 }
                 let empty = Vec::new();
                 let skip = skips.get(&bi).unwrap_or(&empty);
+                let t0 = std::time::Instant::now();
                 child_run_block(b, &Mode::All { sel: sels[bi], skip }, env, shared, &mut out, 1, Some(dl));
+                let top = b.info().dec.split('.').next().unwrap_or("").to_string();
+                *out.counters.entry(format!("{top}.cpu_ms")).or_insert(0) += t0.elapsed().as_millis() as u64;
                 let stop = out.capped.is_some();
                 em.emit(bi, &out);
                 if stop {
@@ -477,7 +505,7 @@ fn run_group(blocks: &[Box<dyn Block>], sels: &[Sel], from: usize, mut skips: BT
         let b = blocks[bi].as_ref();
         let info = b.info();
         rep.count("child_deaths", 1);
-        let (_, single) = iso::run_child(&ctx.scratch, shared, |em| {
+        let (single_outs, single) = iso::run_child(&ctx.scratch, shared, |em| {
             shared.set_block(bi as u64);
             let mut out = Out::default();
             child_run_block(b, &Mode::Only(d.at), env, shared, &mut out, 5, None);
@@ -486,11 +514,19 @@ fn run_group(blocks: &[Box<dyn Block>], sels: &[Sel], from: usize, mut skips: BT
         let skip_now = skips.get(&bi).cloned().unwrap_or_default();
         match single {
             Some(d2) => {
-                let sig = format!("C23/{}/{}/{}", info.dec, info.kind, d2.how);
+                let sig = format!("C23/{}.{}/{}/{}", info.dec, d2.sub, info.kind, d2.how);
                 rep.violation("C23", "no-crash", &sig, || death_case(b, d.at, "single", None, &[]), "call returns Ok or Err", &format!("child process died: {} (in block run: {})", d2.how, d.how));
             }
+            None if d.how.starts_with("hang") => {
+                // the case completes when run alone with a 5x limit: machine load, not a hang
+                for (_, o) in &single_outs {
+                    merge_out(rep, info, o);
+                }
+                rep.count("timeouts_not_confirmed_alone", 1);
+                rep.note("a watchdog timeout inside a block was not confirmed when the case ran alone (completed): counted in timeouts_not_confirmed_alone, not a violation");
+            }
             None => {
-                let sig = format!("C23/{}/{}/{}-in-sequence", info.dec, info.kind, d.how);
+                let sig = format!("C23/{}.{}/{}/{}-in-sequence", info.dec, d.sub, info.kind, d.how);
                 rep.violation("C23", "no-crash", &sig, || death_case(b, d.at, "prefix", Some(sels[bi]), &skip_now), "call returns Ok or Err", &format!("child process died: {} (only after the preceding cases of the block)", d.how));
             }
         }
@@ -659,6 +695,8 @@ impl Seed {
     }
 }
 pub struct Decoder {
+    /// cases do file I/O (watchdog re-armed per case)
+    pub io: bool,
     pub name: &'static str,
     /// fixed-size page input (placed exactly filling the guarded area)
     pub page: bool,
@@ -696,10 +734,10 @@ struct ABlock {
     offs: Vec<u32>,
 }
 impl ABlock {
-    fn exec(&self, bytes: &[u8], env_small: &mut GuardBuf, env_page: &mut GuardBuf, scratch: &Path, out: &mut Out, seen: &mut BTreeSet<(&'static str, u8)>, case: &dyn Fn() -> Value) {
+    fn exec(&self, bytes: &[u8], env_small: &mut GuardBuf, env_page: &mut GuardBuf, scratch: &Path, shared: &Shared, out: &mut Out, seen: &mut BTreeSet<(&'static str, u8)>, case: &dyn Fn() -> Value) {
         let seed = &self.dec.seeds[self.seed];
         let placed: &[u8] = if self.dec.page && bytes.len() <= PAGE { env_page.place(bytes) } else { env_small.place(bytes) };
-        let mut rec = Rec { out, dec: self.dec.name, kind: &self.info.kind, case, seen, scratch };
+        let mut rec = Rec { out, dec: self.dec.name, kind: &self.info.kind, case, seen, scratch, shared };
         (self.dec.f)(seed, placed, &mut rec);
     }
 }
@@ -726,8 +764,8 @@ impl Block for ABlock {
         let mut buf = std::mem::take(&mut env.buf);
         let ok = mutate(&seed.bytes, self.kind, i, &self.offs, &mut buf).is_some();
         if ok {
-            let Env { small, page, scratch, .. } = env;
-            self.exec(&buf, small, page, scratch, out, seen, &|| self.describe(i));
+            let Env { small, page, scratch, shared, .. } = env;
+            self.exec(&buf, small, page, scratch, shared, out, seen, &|| self.describe(i));
         }
         env.buf = buf;
         ok && self.kind != Kind::Identity
@@ -793,7 +831,7 @@ impl Block for SBlock {
         {
             let placed: &[u8] = env.small.place(&buf);
             let case = || self.describe(i);
-            let mut rec = Rec { out, dec: self.dec.name, kind: &self.info.kind, case: &case, seen, scratch: &env.scratch };
+            let mut rec = Rec { out, dec: self.dec.name, kind: &self.info.kind, case: &case, seen, scratch: &env.scratch, shared: &env.shared };
             (self.dec.f)(&self.dec.seeds[0], placed, &mut rec);
         }
         env.buf = buf;
@@ -816,7 +854,7 @@ mod dec {
             let n = encode_varint(v, &mut buf);
             seeds.push(Seed::new(&format!("v{v}"), buf[..n].to_vec()));
         }
-        Decoder { name: "varint", page: false, strings: true, seeds, f: d_varint }
+        Decoder { io: false, name: "varint", page: false, strings: true, seeds, f: d_varint }
     }
 
     fn d_key(_s: &Seed, b: &[u8], r: &mut Rec) {
@@ -888,13 +926,17 @@ mod dec {
             encode_null(b);
             encode_float(2.0, b);
         });
-        Decoder { name: "key", page: false, strings: true, seeds, f: d_key }
+        Decoder { io: false, name: "key", page: false, strings: true, seeds, f: d_key }
     }
 
-    pub fn all(_scratch: &Path) -> Vec<Decoder> {
+    pub const DB_SEEDED: [&str; 12] = ["meta_header", "table_header", "index_header", "hnsw_header", "hnsw_node", "hnsw_page", "page", "leaf", "interior", "catalog", "catalog_file", "wal"];
+    /// `want`: only this decoder is needed (replay / --opt dec=): skip building the seed databases when possible
+    pub fn all(scratch: &Path, want: Option<&str>) -> Vec<Decoder> {
         let mut v = vec![varint(), key()];
         v.extend(super::dec2::all());
-        v.extend(super::dec3::all(_scratch));
+        if want.map(|w| DB_SEEDED.contains(&w)).unwrap_or(true) {
+            v.extend(super::dec3::all(scratch));
+        }
         v
     }
 }
@@ -930,8 +972,8 @@ mod dec2 {
             Seed::new("k2", make_chunk_key(0x0102030405060708, 258).to_vec()),
         ];
         vec![
-            Decoder { name: "toast_pointer", page: false, strings: true, seeds: p, f: d_toast_ptr },
-            Decoder { name: "toast_chunk_key", page: false, strings: true, seeds: k, f: d_toast_key },
+            Decoder { io: false, name: "toast_pointer", page: false, strings: true, seeds: p, f: d_toast_ptr },
+            Decoder { io: false, name: "toast_chunk_key", page: false, strings: true, seeds: k, f: d_toast_key },
         ]
     }
 
@@ -1364,10 +1406,10 @@ mod dec2 {
 
     pub fn all() -> Vec<Decoder> {
         let mut v = toast();
-        v.push(Decoder { name: "jsonb", page: false, strings: true, seeds: jsonb_seeds(), f: d_jsonb });
-        v.push(Decoder { name: "array", page: false, strings: true, seeds: array_seeds(), f: d_array });
-        v.push(Decoder { name: "composite", page: false, strings: true, seeds: composite_seeds(), f: d_composite });
-        v.push(Decoder { name: "record", page: false, strings: true, seeds: record_seeds(), f: d_record });
+        v.push(Decoder { io: false, name: "jsonb", page: false, strings: true, seeds: jsonb_seeds(), f: d_jsonb });
+        v.push(Decoder { io: false, name: "array", page: false, strings: true, seeds: array_seeds(), f: d_array });
+        v.push(Decoder { io: false, name: "composite", page: false, strings: true, seeds: composite_seeds(), f: d_composite });
+        v.push(Decoder { io: false, name: "record", page: false, strings: true, seeds: record_seeds(), f: d_record });
         v
     }
 }
@@ -1565,10 +1607,10 @@ mod dec3 {
             hn.push(Seed::new(name, buf));
         }
         vec![
-            Decoder { name: "meta_header", page: false, strings: true, seeds: meta, f: d_meta },
-            Decoder { name: "table_header", page: false, strings: true, seeds: table, f: d_table },
-            Decoder { name: "index_header", page: false, strings: true, seeds: index, f: d_index },
-            Decoder { name: "hnsw_header", page: false, strings: true, seeds: hn, f: d_hnsw_hdr },
+            Decoder { io: false, name: "meta_header", page: false, strings: true, seeds: meta, f: d_meta },
+            Decoder { io: false, name: "table_header", page: false, strings: true, seeds: table, f: d_table },
+            Decoder { io: false, name: "index_header", page: false, strings: true, seeds: index, f: d_index },
+            Decoder { io: false, name: "hnsw_header", page: false, strings: true, seeds: hn, f: d_hnsw_hdr },
         ]
     }
 
@@ -1643,7 +1685,7 @@ mod dec3 {
             hnsw_page_seed("one", &[hnsw_node_bytes(1, 2, 1)], None),
             hnsw_page_seed("three-deleted", &[hnsw_node_bytes(0, 3, 0), hnsw_node_bytes(2, 2, 2), hnsw_node_bytes(0, 0, 0)], Some(1)),
         ];
-        vec![Decoder { name: "hnsw_node", page: false, strings: true, seeds: nodes, f: d_hnsw_node }, Decoder { name: "hnsw_page", page: true, strings: false, seeds: pages, f: d_hnsw_page }]
+        vec![Decoder { io: false, name: "hnsw_node", page: false, strings: true, seeds: nodes, f: d_hnsw_node }, Decoder { io: false, name: "hnsw_page", page: true, strings: false, seeds: pages, f: d_hnsw_page }]
     }
 
     // ---------------- page header / validate_page / B-tree nodes ----------------
@@ -1790,18 +1832,20 @@ mod dec3 {
             pages.push(Seed::new("freelist-trunk", p).dense(vec![0..64]));
         }
         vec![
-            Decoder { name: "page", page: true, strings: false, seeds: pages, f: d_page },
-            Decoder { name: "leaf", page: true, strings: false, seeds: leaves, f: d_leaf },
-            Decoder { name: "interior", page: true, strings: false, seeds: ints, f: d_interior },
+            Decoder { io: false, name: "page", page: true, strings: false, seeds: pages, f: d_page },
+            Decoder { io: false, name: "leaf", page: true, strings: false, seeds: leaves, f: d_leaf },
+            Decoder { io: false, name: "interior", page: true, strings: false, seeds: ints, f: d_interior },
         ]
     }
 
     // ---------------- catalog ----------------
     fn d_catalog(_s: &Seed, b: &[u8], r: &mut Rec) {
-        if b.len() >= 128 {
-            let mut c = Catalog::new();
-            r.call("deserialize", || CatalogPersistence::deserialize(&b[128..], &mut c));
+        let mut c = Catalog::new();
+        if r.call("deserialize", || CatalogPersistence::deserialize(b, &mut c)).is_some() {
+            r.call("reserialize", || CatalogPersistence::serialize(&c));
         }
+    }
+    fn d_catalog_file(_s: &Seed, b: &[u8], r: &mut Rec) {
         let p = r.scratch.join("cat_case.catalog");
         std::fs::write(&p, b).expect("write catalog case");
         let mut c = Catalog::new();
@@ -1809,10 +1853,15 @@ mod dec3 {
             r.call("reserialize", || CatalogPersistence::serialize(&c));
         }
     }
-    fn catalog(scratch: &Path, db: &seeddb::Db) -> Decoder {
-        let mut seeds: Vec<Seed> = seeddb::catalogs(scratch).into_iter().map(|(n, b)| Seed::new(&n, b).dense(vec![0..128])).collect();
-        seeds.push(Seed::new("main-db", file_of(db, "turdb.catalog").to_vec()).dense(vec![0..128]));
-        Decoder { name: "catalog", page: false, strings: true, seeds, f: d_catalog }
+    fn catalog(scratch: &Path, db: &seeddb::Db) -> Vec<Decoder> {
+        let mut files: Vec<(String, Vec<u8>)> = seeddb::catalogs(scratch);
+        files.push(("main-db".to_string(), file_of(db, "turdb.catalog").to_vec()));
+        let body: Vec<Seed> = files.iter().map(|(n, b)| Seed::new(n, b[128..].to_vec())).collect();
+        let whole: Vec<Seed> = files.iter().map(|(n, b)| Seed::new(n, b.clone()).dense(vec![0..128])).collect();
+        vec![
+            Decoder { io: false, name: "catalog", page: false, strings: true, seeds: body, f: d_catalog },
+            Decoder { io: true, name: "catalog_file", page: false, strings: false, seeds: whole, f: d_catalog_file },
+        ]
     }
 
     // ---------------- WAL ----------------
@@ -1863,10 +1912,28 @@ mod dec3 {
             Some((t, x)) => WalFrameHeader::new_undo_frame(page_no, db_size, 0x1111, 0x2222, 0, t, x),
             None => WalFrameHeader::new_with_file_id(page_no, db_size, 0x1111, 0x2222, 0, file_id),
         };
-        h.checksum = turdb::storage::compute_checksum_pub(&h, &page);
+        h.checksum = frame_checksum(&h, &page);
         let mut v = frame_header_bytes(&h);
         v.extend_from_slice(&page);
         v
+    }
+    /// CRC-64/ECMA-182 (poly 42F0E1EBA9EA3693, init 0, not reflected, xorout 0) over
+    /// file_id, page_no, db_size, salt1, salt2 (LE) and the page image — the
+    /// engine's `compute_checksum` is not exported; the identity cases prove agreement.
+    pub fn crc64_ecma(chunks: &[&[u8]]) -> u64 {
+        let mut crc = 0u64;
+        for c in chunks {
+            for &b in *c {
+                crc ^= (b as u64) << 56;
+                for _ in 0..8 {
+                    crc = if crc & (1 << 63) != 0 { (crc << 1) ^ 0x42F0_E1EB_A9EA_3693 } else { crc << 1 };
+                }
+            }
+        }
+        crc
+    }
+    pub fn frame_checksum(h: &WalFrameHeader, page: &[u8]) -> u64 {
+        crc64_ecma(&[&h.file_id.to_le_bytes(), &h.page_no.to_le_bytes(), &h.db_size.to_le_bytes(), &h.salt1.to_le_bytes(), &h.salt2.to_le_bytes(), page])
     }
     pub fn frame_header_bytes(h: &WalFrameHeader) -> Vec<u8> {
         let mut v = Vec::with_capacity(32);
@@ -1897,7 +1964,7 @@ mod dec3 {
                 seeds.push(Seed::new("engine-two-frames", f[..2 * 16416].to_vec()).aux(Aux::Wal { file_id: fid, page_no: pno }).dense(vec![0..128, 16416..16416 + 128]));
             }
         }
-        Decoder { name: "wal", page: false, strings: true, seeds, f: d_wal }
+        Decoder { io: true, name: "wal", page: false, strings: false, seeds, f: d_wal }
     }
 
     pub fn all(scratch: &Path) -> Vec<Decoder> {
@@ -1906,7 +1973,7 @@ mod dec3 {
         let mut v = headers(&db, &wdb);
         v.extend(hnsw());
         v.extend(btree(&db));
-        v.push(catalog(scratch, &db));
+        v.extend(catalog(scratch, &db));
         v.push(wal(&wdb));
         v
     }
@@ -1917,9 +1984,15 @@ mod dec3 {
 // ======================================================================
 fn part_a_blocks(ctx: &Ctx, only_key: Option<&str>) -> Vec<Box<dyn Block>> {
     let quick = ctx.quick();
-    let decs = dec::all(&ctx.scratch);
+    let want: Option<String> = only_key.and_then(|k| k.split('/').nth(1)).map(|s| s.to_string()).or_else(|| ctx.opt("dec").map(|s| s.to_string()));
+    let decs = dec::all(&ctx.scratch, want.as_deref());
     let mut blocks: Vec<Box<dyn Block>> = Vec::new();
     for d in decs {
+        if let Some(f) = &want {
+            if f != d.name {
+                continue;
+            }
+        }
         let d = std::rc::Rc::new(d);
         // identity block: every seed must decode without panic (seed validity)
         for (si, seed) in d.seeds.iter().enumerate() {
@@ -1934,7 +2007,7 @@ fn part_a_blocks(ctx: &Ctx, only_key: Option<&str>) -> Vec<Box<dyn Block>> {
                 let stride = if k == Kind::Subst { 64 } else { 256 };
                 let offs = if k == Kind::Identity { vec![] } else { offsets_for(seed, quick, stride) };
                 let n = kind_count(&seed.bytes, k, &offs);
-                blocks.push(Box::new(ABlock { info: BlockInfo { key, dec: d.name.to_string(), kind: k.name().to_string(), n, hang_s: HANG_A_S }, dec: d.clone(), seed: si, kind: k, offs }));
+                blocks.push(Box::new(ABlock { info: BlockInfo { key, dec: d.name.to_string(), kind: k.name().to_string(), n, hang_s: HANG_A_S, alarm_every: if d.io { 1 } else { 64 } }, dec: d.clone(), seed: si, kind: k, offs }));
             }
         }
         if d.strings {
@@ -1945,7 +2018,7 @@ fn part_a_blocks(ctx: &Ctx, only_key: Option<&str>) -> Vec<Box<dyn Block>> {
                         continue;
                     }
                 }
-                blocks.push(Box::new(SBlock { info: BlockInfo { key, dec: d.name.to_string(), kind: kn.to_string(), n, hang_s: HANG_A_S }, dec: d.clone(), repeat, pats: repeat_patterns() }));
+                blocks.push(Box::new(SBlock { info: BlockInfo { key, dec: d.name.to_string(), kind: kn.to_string(), n, hang_s: HANG_A_S, alarm_every: if d.io { 1 } else { 64 } }, dec: d.clone(), repeat, pats: repeat_patterns() }));
             }
         }
     }
@@ -1965,10 +2038,303 @@ fn all_blocks(ctx: &Ctx, only_key: Option<&str>) -> Vec<Box<dyn Block>> {
     v
 }
 
+// ======================================================================
+// PART B: corrupted copies of whole databases
+// ======================================================================
 mod partb {
     use super::*;
-    pub fn blocks(_ctx: &Ctx, _only_key: Option<&str>) -> Vec<Box<dyn Block>> {
-        vec![]
+    use std::rc::Rc;
+    use turdb::btree::{InteriorNode, LeafNode};
+    use turdb::encoding::varint::decode_varint;
+    use turdb::Database;
+
+    const FRAME: usize = 32 + PAGE;
+
+    pub struct Plan {
+        pub db: seeddb::Db,
+        pub tables: &'static [(&'static str, &'static str, &'static str)],
+    }
+    #[derive(Clone, Copy)]
+    enum BCase {
+        Identity,
+        Subst { off: u32, vi: u8 },
+        Len(u64),
+    }
+    pub struct BBlock {
+        info: BlockInfo,
+        plan: Rc<Plan>,
+        file: usize,
+        cases: Vec<BCase>,
+    }
+    fn subst_val(b: u8, vi: u8) -> Option<u8> {
+        let list = [0x00, 0xFF, b ^ 1, b ^ 0x80];
+        let v = list[vi as usize];
+        if v == b || list[..vi as usize].contains(&v) {
+            None
+        } else {
+            Some(v)
+        }
+    }
+    fn class_of(rel: &str) -> &'static str {
+        if rel == "turdb.meta" {
+            "meta"
+        } else if rel == "turdb.catalog" {
+            "catalog"
+        } else if rel.starts_with("wal/") {
+            "wal"
+        } else if rel.starts_with("turdb_catalog/") {
+            "systable"
+        } else if rel.ends_with("_toast.tbd") {
+            "toast"
+        } else if rel.ends_with(".idx") {
+            "index"
+        } else {
+            "table"
+        }
+    }
+
+    /// offsets of one file grouped by region kind
+    fn regions(rel: &str, f: &[u8], quick: bool) -> BTreeMap<&'static str, Vec<u32>> {
+        let mut m: BTreeMap<&'static str, BTreeSet<u32>> = BTreeMap::new();
+        let other_stride = if quick { 512 } else { 64 };
+        let cell_limit = if quick { 6 } else { usize::MAX };
+        let mut add = |k: &'static str, r: std::ops::Range<usize>, len: usize| {
+            let e = m.entry(k).or_default();
+            for i in r.start.min(len)..r.end.min(len) {
+                e.insert(i as u32);
+            }
+        };
+        let n = f.len();
+        match class_of(rel) {
+            "catalog" => add("subst.catalog", 0..n, n),
+            "wal" => {
+                for k in 0..n / FRAME {
+                    let b = k * FRAME;
+                    add("subst.walhdr", b..b + 32, n);
+                    add("subst.pagehdr", b + 32..b + 32 + 24, n);
+                }
+            }
+            _ => {
+                add("subst.filehdr", 0..128, n);
+                for p in 1..n / PAGE {
+                    let base = p * PAGE;
+                    let page = &f[base..base + PAGE];
+                    match page[0] {
+                        0x02 => {
+                            add("subst.pagehdr", base..base + 24, n);
+                            if let Ok(l) = LeafNode::from_page(page) {
+                                let cnt = l.cell_count() as usize;
+                                for i in 0..cnt {
+                                    if i >= cell_limit && i + 2 < cnt {
+                                        continue;
+                                    }
+                                    add("subst.slots", base + 24 + i * 8..base + 24 + (i + 1) * 8, n);
+                                    if let Ok(s) = l.slot_at(i) {
+                                        let off = s.offset() as usize;
+                                        let kl = s.key_len() as usize;
+                                        let vs = off + kl;
+                                        let vn = decode_varint(&page[vs.min(PAGE - 1)..]).map(|x| x.1).unwrap_or(1);
+                                        add("subst.cell", base + off..base + (vs + vn + 24).min(PAGE), n);
+                                    }
+                                }
+                            }
+                        }
+                        0x01 => {
+                            add("subst.pagehdr", base..base + 16, n);
+                            if let Ok(l) = InteriorNode::from_page(page) {
+                                let cnt = l.cell_count() as usize;
+                                for i in 0..cnt {
+                                    if i >= cell_limit && i + 2 < cnt {
+                                        continue;
+                                    }
+                                    add("subst.slots", base + 16 + i * 12..base + 16 + (i + 1) * 12, n);
+                                    if let Ok(s) = l.slot_at(i) {
+                                        let off = s.offset() as usize;
+                                        add("subst.cell", base + off..base + (off + s.key_len() as usize).min(PAGE), n);
+                                    }
+                                }
+                            }
+                        }
+                        _ => add("subst.pagehdr", base..base + 24, n),
+                    }
+                }
+            }
+        }
+        // everything else in strides
+        let taken: BTreeSet<u32> = m.values().flat_map(|s| s.iter().copied()).collect();
+        let e = m.entry("subst.other").or_default();
+        let mut i = 0;
+        while i < n {
+            if !taken.contains(&(i as u32)) {
+                e.insert(i as u32);
+            }
+            i += other_stride;
+        }
+        if n > 0 && !taken.contains(&(n as u32 - 1)) {
+            e.insert(n as u32 - 1);
+        }
+        m.into_iter().map(|(k, v)| (k, v.into_iter().collect())).collect()
+    }
+
+    fn trunc_lengths(rel: &str, n: usize) -> Vec<u64> {
+        let mut v = BTreeSet::new();
+        match class_of(rel) {
+            "catalog" => {
+                for l in 0..=n + 1 {
+                    v.insert(l as u64);
+                }
+            }
+            c => {
+                let unit = if c == "wal" { FRAME } else { PAGE };
+                for k in 0..=n / unit + 1 {
+                    for d in [-1i64, 0, 1] {
+                        let l = (k * unit) as i64 + d;
+                        if l >= 0 {
+                            v.insert(l as u64);
+                        }
+                    }
+                }
+            }
+        }
+        v.remove(&(n as u64));
+        v.into_iter().collect()
+    }
+
+    fn restore_tree(work: &Path, files: &[(String, Vec<u8>)], patched_idx: usize, patched: Option<&[u8]>) {
+        use std::io::Write;
+        fn clean(dir: &Path, root: &Path, keep: &BTreeSet<&str>) {
+            if let Ok(rd) = std::fs::read_dir(dir) {
+                for e in rd.filter_map(|e| e.ok()) {
+                    let p = e.path();
+                    let rel = p.strip_prefix(root).unwrap().to_string_lossy().to_string();
+                    if p.is_dir() {
+                        if keep.iter().any(|k| k.starts_with(&format!("{rel}/"))) {
+                            clean(&p, root, keep);
+                        } else {
+                            let _ = std::fs::remove_dir_all(&p);
+                        }
+                    } else if !keep.contains(rel.as_str()) {
+                        let _ = std::fs::remove_file(&p);
+                    }
+                }
+            }
+        }
+        let keep: BTreeSet<&str> = files.iter().map(|f| f.0.as_str()).collect();
+        if work.exists() {
+            clean(work, work, &keep);
+        }
+        for (fi, (r, bytes)) in files.iter().enumerate() {
+            let p = work.join(r);
+            let data: &[u8] = if fi == patched_idx { patched.unwrap_or(bytes) } else { bytes };
+            let mut f = match std::fs::OpenOptions::new().write(true).open(&p) {
+                Ok(f) => f,
+                Err(_) => {
+                    if let Some(d) = p.parent() {
+                        std::fs::create_dir_all(d).expect("mkdir work");
+                    }
+                    std::fs::OpenOptions::new().write(true).create(true).open(&p).expect("create work file")
+                }
+            };
+            f.write_all(data).expect("write work file");
+            f.set_len(data.len() as u64).expect("set_len work file");
+        }
+    }
+
+    impl BBlock {
+        fn exec(&self, i: u64, env: &mut Env, out: &mut Out, seen: &mut BTreeSet<(&'static str, u8)>) -> bool {
+            let (rel, orig) = &self.plan.db.files[self.file];
+            let patched: Option<Vec<u8>> = match self.cases[i as usize] {
+                BCase::Identity => None,
+                BCase::Subst { off, vi } => {
+                    let Some(v) = subst_val(orig[off as usize], vi) else { return false };
+                    let mut b = orig.clone();
+                    b[off as usize] = v;
+                    Some(b)
+                }
+                BCase::Len(l) => {
+                    let mut b = orig.clone();
+                    b.resize(l as usize, 0);
+                    Some(b)
+                }
+            };
+            // restore the working copy in place (no truncate/unlink of the pristine files: page
+            // allocation is very expensive on the sandbox VM), remove whatever the engine added
+            let work = env.scratch.join(format!("b_work_{}", self.plan.db.name));
+            let t0 = std::time::Instant::now();
+            restore_tree(&work, &self.plan.db.files, self.file, patched.as_deref());
+            let t_restore = t0.elapsed().as_micros() as u64;
+            let _ = rel;
+            let case = || self.describe(i);
+            let mut r = Rec { out, dec: &self.info.dec, kind: &self.info.kind, case: &case, seen, scratch: &env.scratch, shared: &env.shared };
+            let t1 = std::time::Instant::now();
+            if let Some(db) = r.call("open", || Database::open(&work)) {
+                r.count("db.open_us", t1.elapsed().as_micros() as u64);
+                let t2 = std::time::Instant::now();
+                for (t, pk, ix) in self.plan.tables {
+                    r.call("select_all", || db.query(&format!("SELECT * FROM {t}")).map(|v| v.len()));
+                    r.call("count", || db.query(&format!("SELECT COUNT(*) FROM {t}")).map(|v| v.len()));
+                    r.call("pk_lookup", || db.query(pk).map(|v| v.len()));
+                    r.call("index_lookup", || db.query(ix).map(|v| v.len()));
+                }
+                r.count("db.query_us", t2.elapsed().as_micros() as u64);
+                let t3 = std::time::Instant::now();
+                r.call("close", || db.close());
+                r.count("db.close_us", t3.elapsed().as_micros() as u64);
+                let t4 = std::time::Instant::now();
+                r.inf("drop", move || drop(db));
+                r.count("db.drop_us", t4.elapsed().as_micros() as u64);
+            }
+            r.count("db.restore_us", t_restore);
+            r.count("db.engine_us", t0.elapsed().as_micros() as u64 - t_restore);
+            !matches!(self.cases[i as usize], BCase::Identity)
+        }
+    }
+    impl Block for BBlock {
+        fn info(&self) -> &BlockInfo {
+            &self.info
+        }
+        fn describe(&self, i: u64) -> Value {
+            let (rel, orig) = &self.plan.db.files[self.file];
+            let m = match self.cases[i as usize] {
+                BCase::Identity => json!({"identity": true}),
+                BCase::Subst { off, vi } => json!({"off": off, "page": off as usize / PAGE, "in_page": off as usize % PAGE, "old": orig[off as usize], "val": subst_val(orig[off as usize], vi)}),
+                BCase::Len(l) => json!({"new_len": l, "old_len": orig.len()}),
+            };
+            json!({"part": "B", "block": self.info.key, "i": i, "db": self.plan.db.name, "file": rel, "kind": self.info.kind, "mutation": m})
+        }
+        fn run(&self, i: u64, env: &mut Env, out: &mut Out, seen: &mut BTreeSet<(&'static str, u8)>) -> bool {
+            self.exec(i, env, out, seen)
+        }
+    }
+
+    pub fn blocks(ctx: &Ctx, only_key: Option<&str>) -> Vec<Box<dyn Block>> {
+        let quick = ctx.quick();
+        let mut v: Vec<Box<dyn Block>> = Vec::new();
+        let plans = [Plan { db: seeddb::main(&ctx.scratch), tables: &seeddb::MAIN_TABLES }, Plan { db: seeddb::walcrash(&ctx.scratch), tables: &seeddb::WAL_TABLES }];
+        for plan in plans {
+            let plan = Rc::new(plan);
+            let mut push = |v: &mut Vec<Box<dyn Block>>, file: usize, kind: &str, cases: Vec<BCase>| {
+                let (rel, _) = &plan.db.files[file];
+                let key = format!("B/{}/{}/{}", plan.db.name, rel, kind);
+                if only_key.map(|k| k != key).unwrap_or(false) || cases.is_empty() {
+                    return;
+                }
+                let n = cases.len() as u64;
+                v.push(Box::new(BBlock { info: BlockInfo { key, dec: format!("db.{}", class_of(rel)), kind: kind.to_string(), n, hang_s: HANG_B_S, alarm_every: 1 }, plan: plan.clone(), file, cases }));
+            };
+            push(&mut v, 0, "identity", vec![BCase::Identity]);
+            for fi in 0..plan.db.files.len() {
+                let (rel, bytes) = &plan.db.files[fi];
+                // the WAL-crashed database differs from the main one only by its wal/ directory and table w:
+                // its system tables / meta are enumerated too (recovery runs before them)
+                for (kind, offs) in regions(rel, bytes, quick) {
+                    let cases: Vec<BCase> = offs.iter().flat_map(|o| (0..4u8).map(move |vi| BCase::Subst { off: *o, vi })).collect();
+                    push(&mut v, fi, kind, cases);
+                }
+                push(&mut v, fi, "trunc", trunc_lengths(rel, bytes.len()).into_iter().map(BCase::Len).collect());
+            }
+        }
+        v
     }
 }
 
@@ -2016,8 +2382,8 @@ impl Check for C23 {
             rep.bulk(1, 1);
             return;
         }
-        let shared = Shared::new();
-        let mut env = Env::new(&ctx.scratch);
+        let shared = std::rc::Rc::new(Shared::new());
+        let mut env = Env::new(&ctx.scratch, shared.clone());
         let blocks = all_blocks(ctx, None);
         rep.bound("subst_all_256_values_up_to_len", json!(ALL_VALUES_MAX_LEN));
         rep.bound("blocks", json!(blocks.len()));
@@ -2035,8 +2401,8 @@ impl Check for C23 {
 
     fn replay(&self, ctx: &Ctx, case: &Value, rep: &mut Reporter) {
         quiet_env();
-        let shared = Shared::new();
-        let mut env = Env::new(&ctx.scratch);
+        let shared = std::rc::Rc::new(Shared::new());
+        let mut env = Env::new(&ctx.scratch, shared.clone());
         let key = case["block"].as_str().unwrap_or_else(|| vcore::machinery("C23 replay: case without block key"));
         let blocks = all_blocks(ctx, Some(key));
         let b = blocks.iter().find(|b| b.info().key == key).unwrap_or_else(|| vcore::machinery(&format!("C23 replay: unknown block {key}")));
@@ -2078,7 +2444,7 @@ impl Check for C23 {
                 }
                 if let Some(d) = died {
                     rep.bulk(1, 1);
-                    let sig = format!("C23/{}/{}/{}-in-sequence", info.dec, info.kind, d.how);
+                    let sig = format!("C23/{}.{}/{}/{}-in-sequence", info.dec, d.sub, info.kind, d.how);
                     rep.violation("C23", "no-crash", &sig, || case.clone(), "call returns Ok or Err", &format!("child process died: {}", d.how));
                 }
             }
@@ -2098,7 +2464,7 @@ impl Check for C23 {
                 }
                 if let Some(d) = died {
                     rep.bulk(1, 1);
-                    let sig = format!("C23/{}/{}/{}", info.dec, info.kind, d.how);
+                    let sig = format!("C23/{}.{}/{}/{}", info.dec, d.sub, info.kind, d.how);
                     rep.violation("C23", "no-crash", &sig, || case.clone(), "call returns Ok or Err", &format!("child process died: {}", d.how));
                 }
             }
@@ -2112,6 +2478,12 @@ impl Check for C23 {
 fn quiet_env() {
     std::env::set_var("RUST_BACKTRACE", "0");
     std::env::set_var("RUST_LIB_BACKTRACE", "0");
+    // brk/mmap/munmap are very expensive on the sandbox VM: keep freed heap, grow in big steps
+    unsafe {
+        libc::mallopt(libc::M_TRIM_THRESHOLD, 1 << 30);
+        libc::mallopt(libc::M_TOP_PAD, 64 << 20);
+        libc::mallopt(libc::M_MMAP_THRESHOLD, 32 << 20);
+    }
 }
 
 fn main() {
